@@ -530,9 +530,10 @@ class LRTable:
                     else 0
                 )
                 +
-                # Account for `\b` at the beginning and end of keyword regex
+                # A keyword counts with the length of its text, not of the
+                # regex (word boundaries and escapes) that matches it.
                 (
-                    (len(symbol.recognizer._regex) - 4)
+                    len(symbol.recognizer.keyword_value)
                     if type(symbol.recognizer) is RegExRecognizer and symbol.keyword
                     else 0
                 ),
